@@ -4,6 +4,7 @@
 mod canon;
 mod http;
 mod l1;
+mod sched;
 mod store;
 
 fn main() {
